@@ -379,3 +379,251 @@ pub(crate) mod verif_enc {
         core::mem::forget(res);
     }
 }
+
+// H-HDR (encrypt side): the REAL key_encrypt / pass_encrypt with Noise, HKDF, scrypt, the RNG and the chunk loop
+// replaced by recorders: what goes into the header, what is derived from what, what is passed down, what is
+// written when.
+#[allow(dead_code, static_mut_refs, unused_imports, unused_variables, unused_mut)]
+pub(crate) mod verif_hdr_enc {
+    use super::*;
+    use crate::errors::NoiseError;
+    use crate::NoiseEncryptMsg;
+    use std::io::{Read, Write};
+
+    // ---- sink / source -----------------------------------------------------------------------
+    pub static mut W_LEN: usize = 0;
+    pub static mut W_WRITES: usize = 0;
+    pub static mut W_FLUSHES: usize = 0;
+    pub static mut W_FLUSHED_LEN: usize = 0;
+    pub struct HSink { pub out: [u8; 140], pub fail_at: usize }
+    impl Write for HSink {
+        fn write(&mut self, buf: &[u8]) -> std::io::Result<usize> {
+            unsafe {
+                let c = W_WRITES;
+                W_WRITES += 1;
+                if c == self.fail_at { return Err(std::io::Error::from(std::io::ErrorKind::Other)); }
+                assert!(W_LEN + buf.len() <= 140, "[C08,C06] header is longer than the format allows");
+                self.out[W_LEN..W_LEN + buf.len()].copy_from_slice(buf);
+                W_LEN += buf.len();
+            }
+            Ok(buf.len())
+        }
+        fn write_all(&mut self, buf: &[u8]) -> std::io::Result<()> { if buf.is_empty() { return Ok(()); } self.write(buf).map(|_| ()) }
+        fn flush(&mut self) -> std::io::Result<()> { unsafe { W_FLUSHES += 1; W_FLUSHED_LEN = W_LEN; } Ok(()) }
+    }
+    pub struct NoSrc;
+    impl Read for NoSrc { fn read(&mut self, _b: &mut [u8]) -> std::io::Result<usize> { unsafe { SRC_READS += 1; } Ok(0) } }
+    pub static mut SRC_READS: usize = 0;
+
+    // ---- recorders ---------------------------------------------------------------------------
+    #[derive(Clone, Copy)]
+    pub struct NoiseArgs { n: usize, s: [u8; 32], spk: [u8; 32], r: [u8; 32], e_some: bool, epk_some: bool, e: [u8; 32], epk: [u8; 32], prologue: [u8; 4], plen: usize, payload: [u8; 32],
+                           w_writes_at_call: usize }
+    pub static mut NA: NoiseArgs = NoiseArgs { n: 0, s: [0; 32], spk: [0; 32], r: [0; 32], e_some: false, epk_some: false, e: [0; 32], epk: [0; 32], prologue: [0; 4], plen: 0, payload: [0; 32], w_writes_at_call: 0 };
+    pub static mut N_FAIL: bool = false;
+    pub static mut N_CT: [u8; 128] = [0; 128];
+    pub static mut N_HH: [u8; 32] = [0; 32];
+    pub fn noise_encrypt_rec(sender: &PrivateKey, sender_public: &PublicKey, recipient: &PublicKey, ephemeral: Option<&PrivateKey>,
+                             ephemeral_public: Option<&PublicKey>, prologue: &[u8], payload_key: &PayloadKey) -> Result<NoiseEncryptMsg, NoiseError> {
+        unsafe {
+            NA.n += 1;
+            NA.s.copy_from_slice(sender.as_bytes());
+            NA.spk.copy_from_slice(sender_public.as_bytes());
+            NA.r.copy_from_slice(recipient.as_bytes());
+            NA.e_some = ephemeral.is_some();
+            NA.epk_some = ephemeral_public.is_some();
+            if let Some(e) = ephemeral { NA.e.copy_from_slice(e.as_bytes()); }
+            if let Some(e) = ephemeral_public { NA.epk.copy_from_slice(e.as_bytes()); }
+            NA.plen = prologue.len();
+            if prologue.len() == 4 { NA.prologue.copy_from_slice(prologue); }
+            NA.payload.copy_from_slice(payload_key.as_bytes());
+            NA.w_writes_at_call = W_WRITES + W_FLUSHES;
+            if N_FAIL { return Err(NoiseError::DhError); }
+            let ct: [u8; 128] = kani::any();
+            let hh: [u8; 32] = kani::any();
+            N_CT = ct;
+            N_HH = hh;
+            Ok(NoiseEncryptMsg { ciphertext: ct.to_vec(), handshake_hash: hh })
+        }
+    }
+    pub static mut HK: (usize, usize, [u8; 32], usize, [u8; 32], usize, usize) = (0, 0, [0; 32], 0, [0; 32], 0, 0); // n, saltlen, ikm, ikmlen, info, infolen, len
+    pub static mut HK_OUT: [u8; 32] = [0; 32];
+    pub fn hkdf_rec(salt: &[u8], ikm: &[u8], info: &[u8], len: usize) -> Vec<u8> {
+        unsafe {
+            HK.0 += 1;
+            HK.1 = salt.len();
+            HK.3 = ikm.len();
+            if ikm.len() == 32 { HK.2.copy_from_slice(ikm); }
+            HK.5 = info.len();
+            if info.len() == 32 { HK.4.copy_from_slice(info); }
+            HK.6 = len;
+            let o: [u8; 32] = kani::any();
+            HK_OUT = o;
+            o.to_vec()
+        }
+    }
+    pub static mut EC: (usize, [u8; 32], usize, [u8; 4], usize, u32, usize, usize) = (0, [0; 32], 0, [0; 4], 0, 0, 0, 0); // n, key, keylen, aad, aadlen, cs, w_len_at_call, flushed_len_at_call
+    pub static mut EC_FAIL: bool = false;
+    pub fn encrypt_chunks_rec<T: Read, U: Write>(plaintext: &mut T, ciphertext: &mut U, key: &[u8], aad: &[u8], chunk_size: u32) -> Result<(), EncryptError> {
+        unsafe {
+            EC.0 += 1;
+            EC.2 = key.len();
+            if key.len() == 32 { EC.1.copy_from_slice(key); }
+            EC.4 = aad.len();
+            if aad.len() == 4 { EC.3.copy_from_slice(aad); }
+            EC.5 = chunk_size;
+            EC.6 = W_LEN;
+            EC.7 = W_FLUSHED_LEN;
+        }
+        // the chunk loop reads the source it is given and writes to the sink it is given
+        let mut b = [0u8; 1];
+        let _ = plaintext.read(&mut b);
+        if unsafe { EC_FAIL } { return Err(EncryptError::UnexpectedData); }
+        Ok(())
+    }
+    pub static mut RNG_N: usize = 0;
+    pub static mut RNG_LEN: usize = 0;
+    pub static mut RNG_OUT: [u8; 32] = [0; 32];
+    pub fn rng_rec(len: usize) -> Vec<u8> {
+        unsafe {
+            RNG_N += 1;
+            RNG_LEN = len;
+            let o: [u8; 32] = kani::any();
+            RNG_OUT = o;
+            if len == 32 { o.to_vec() } else { vec![0u8; len] }
+        }
+    }
+
+    /// C01(b)/C06/C07/C08/C05(3)/C13: key_encrypt.
+    #[kani::proof]
+    #[kani::stub(crate::noise_encrypt, noise_encrypt_rec)]
+    #[kani::stub(crate::hkdf_sha256, hkdf_rec)]
+    #[kani::stub(crate::encrypt::encrypt_chunks, encrypt_chunks_rec)]
+    #[kani::stub(crate::secure_random, rng_rec)]
+    #[kani::unwind(130)]
+    pub fn hdr_key_encrypt() {
+        let (s, spk, r, e, epk, pk): ([u8; 32], [u8; 32], [u8; 32], [u8; 32], [u8; 32], [u8; 32]) = (kani::any(), kani::any(), kani::any(), kani::any(), kani::any(), kani::any());
+        let fresh: bool = kani::any(); // None for ephemeral / payload key (what the CLI does)
+        let nfail: bool = kani::any();
+        let cfail: bool = kani::any();
+        unsafe { N_FAIL = nfail; EC_FAIL = cfail; }
+        let sender = PrivateKey::try_from(&s[..]).unwrap();
+        let sender_public = PublicKey::try_from(&spk[..]).unwrap();
+        let recipient = PublicKey::try_from(&r[..]).unwrap();
+        let eph = PrivateKey::try_from(&e[..]).unwrap();
+        let eph_pub = PublicKey::try_from(&epk[..]).unwrap();
+        let payload = PayloadKey::new(&pk);
+        let mut src = NoSrc;
+        let mut w = HSink { out: [0; 140], fail_at: usize::MAX };
+        let res = if fresh {
+            key_encrypt(&mut src, &mut w, &sender, &sender_public, &recipient, None, None, None, AsymFileFormat::V1)
+        } else {
+            key_encrypt(&mut src, &mut w, &sender, &sender_public, &recipient, Some(&eph), Some(&eph_pub), Some(&payload), AsymFileFormat::V1)
+        };
+        unsafe {
+            assert!(NA.n == 1, "[C06,C07] exactly one handshake per file");
+            assert!(NA.s == s && NA.spk == spk && NA.r == r, "[C01,C05] the handshake is run with the caller's sender key pair and recipient key");
+            assert!(NA.plen == 4 && NA.prologue == [0x65, 0x67, 0x6b, 0x10], "[C06] the handshake prologue is the key-mode magic 65 67 6B 10");
+            assert!(NA.w_writes_at_call == 0, "[C13,C05] nothing is written or flushed before the key exchange has succeeded");
+            if fresh {
+                assert!(!NA.e_some && !NA.epk_some, "[C07] without a caller-supplied ephemeral key the handshake generates its own");
+                assert!(RNG_N == 1 && RNG_LEN == 32 && NA.payload == RNG_OUT, "[C07] the payload key is a fresh 32-byte draw from the CSPRNG, used for nothing else");
+            } else {
+                assert!(NA.e_some && NA.epk_some && NA.e == e && NA.epk == epk && NA.payload == pk && RNG_N == 0, "[C06] caller-supplied ephemeral and payload keys are used as given");
+            }
+            if nfail {
+                assert!(matches!(res, Err(EncryptError::Other(_))), "[C05] a refused key exchange is reported as an error");
+                assert!(W_WRITES == 0 && W_FLUSHES == 0 && EC.0 == 0 && SRC_READS == 0, "[C05,C13] after a refused key exchange nothing is written, flushed or read");
+            } else {
+                assert!(EC.0 == 1, "[C01] the chunk loop runs once");
+                assert!(EC.6 == 132 && EC.7 == 132, "[C06,C08,C13] the 132-byte header is written and flushed before the first chunk");
+                let mut ok = w.out[0] == 0x65 && w.out[1] == 0x67 && w.out[2] == 0x6b && w.out[3] == 0x10;
+                let mut j = 0;
+                while j < 128 { if w.out[4 + j] != N_CT[j] { ok = false; } j += 1; }
+                assert!(ok, "[C06,C08] header = 65 67 6B 10 || the 128-byte Noise handshake message, nothing else");
+                assert!(HK.0 == 1 && HK.1 == 0 && HK.3 == 32 && HK.2 == NA.payload && HK.5 == 32 && HK.4 == N_HH && HK.6 == 32, "[C06,C01] file key = HKDF-SHA256(salt empty, ikm = payload key, info = handshake hash, 32)");
+                assert!(EC.2 == 32 && EC.1 == HK_OUT && EC.4 == 0 && EC.5 == 65536, "[C06,C01,C11] chunks are sealed under the file key, empty aad, chunk size 65536");
+                assert!(SRC_READS == 1, "[C01] the chunk loop reads the caller's plaintext source");
+                assert!(res.is_ok() == !cfail, "[C10,C12] the result of the chunk loop is the result of key_encrypt");
+            }
+        }
+        kani::cover!(fresh && !nfail && res.is_ok());
+        kani::cover!(!fresh && nfail);
+        core::mem::forget(res); core::mem::forget(sender); core::mem::forget(eph); core::mem::forget(payload);
+    }
+
+    // ---- password mode -----------------------------------------------------------------------
+    pub static mut SC: (usize, [u8; 4], usize, [u8; 32], usize, usize, usize, usize, usize, usize) = (0, [0; 4], 0, [0; 32], 0, 0, 0, 0, 0, 0); // n, pw, pwlen, salt, saltlen, N, r, p, dklen, writes_at_call
+    pub static mut SC_OUT: [u8; 32] = [0; 32];
+    pub fn scrypt_rec(password: &[u8], salt: &[u8], n: usize, r: usize, p: usize, dk_len: usize) -> Vec<u8> {
+        unsafe {
+            SC.0 += 1;
+            SC.2 = password.len();
+            let mut j = 0;
+            while j < 4 { if j < password.len() { SC.1[j] = password[j]; } j += 1; }
+            SC.4 = salt.len();
+            if salt.len() == 32 { SC.3.copy_from_slice(salt); }
+            SC.5 = n; SC.6 = r; SC.7 = p; SC.8 = dk_len;
+            SC.9 = W_WRITES + W_FLUSHES;
+            let o: [u8; 32] = kani::any();
+            SC_OUT = o;
+            o.to_vec()
+        }
+    }
+
+    /// C02/C06/C08: pass_encrypt.
+    #[kani::proof]
+    #[kani::stub(crate::scrypt::scrypt, scrypt_rec)]
+    #[kani::stub(crate::encrypt::encrypt_chunks, encrypt_chunks_rec)]
+    #[kani::unwind(130)]
+    pub fn hdr_pass_encrypt() {
+        let pwb: [u8; 4] = kani::any();
+        let pl: usize = kani::any();
+        kani::assume(pl <= 4);
+        let salt: [u8; 32] = kani::any();
+        let cfail: bool = kani::any();
+        unsafe { EC_FAIL = cfail; }
+        let mut src = NoSrc;
+        let mut w = HSink { out: [0; 140], fail_at: usize::MAX };
+        let res = pass_encrypt(&mut src, &mut w, &pwb[..pl], salt, PassFileFormat::V1);
+        unsafe {
+            assert!(SC.0 == 1 && SC.2 == pl && SC.4 == 32 && SC.3 == salt, "[C02,C06] the key is scrypt(password, the caller's salt, ...)");
+            let mut j = 0;
+            while j < 4 { if j < pl { assert!(SC.1[j] == pwb[j], "[C02] scrypt gets the password bytes unchanged"); } j += 1; }
+            assert!(SC.5 == 32768 && SC.6 == 8 && SC.7 == 1 && SC.8 == 32, "[C02,C06,C09] scrypt parameters N=32768, r=8, p=1, 32-byte key");
+            assert!(EC.0 == 1 && EC.6 == 36 && EC.7 == 36, "[C06,C08] the 36-byte header is written and flushed before the first chunk");
+            let mut ok = w.out[0] == 0x65 && w.out[1] == 0x67 && w.out[2] == 0x6b && w.out[3] == 0x20;
+            let mut j = 0;
+            while j < 32 { if w.out[4 + j] != salt[j] { ok = false; } j += 1; }
+            assert!(ok, "[C06,C08] header = 65 67 6B 20 || salt, nothing else");
+            assert!(EC.2 == 32 && EC.1 == SC_OUT, "[C02,C06] chunks are sealed under the scrypt key");
+            assert!(EC.4 == 4 && EC.3 == [0x65, 0x67, 0x6b, 0x20] && EC.5 == 65536, "[C02,C06] chunk aad = the password-mode magic, chunk size 65536");
+            assert!(res.is_ok() == !cfail, "[C10,C12] the result of the chunk loop is the result of pass_encrypt");
+        }
+        kani::cover!(pl == 0 && res.is_ok());
+        kani::cover!(pl == 4 && res.is_err());
+        core::mem::forget(res);
+    }
+
+    /// C10/C13: a failing header write or flush surfaces as IOWrite and stops everything.
+    #[kani::proof]
+    #[kani::stub(crate::noise_encrypt, noise_encrypt_rec)]
+    #[kani::stub(crate::hkdf_sha256, hkdf_rec)]
+    #[kani::stub(crate::encrypt::encrypt_chunks, encrypt_chunks_rec)]
+    #[kani::stub(crate::secure_random, rng_rec)]
+    #[kani::unwind(130)]
+    pub fn hdr_key_encrypt_write_fault() {
+        let (s, spk, r): ([u8; 32], [u8; 32], [u8; 32]) = (kani::any(), kani::any(), kani::any());
+        let at: usize = kani::any();
+        kani::assume(at <= 1);
+        let sender = PrivateKey::try_from(&s[..]).unwrap();
+        let sender_public = PublicKey::try_from(&spk[..]).unwrap();
+        let recipient = PublicKey::try_from(&r[..]).unwrap();
+        let mut src = NoSrc;
+        let mut w = HSink { out: [0; 140], fail_at: at };
+        let res = key_encrypt(&mut src, &mut w, &sender, &sender_public, &recipient, None, None, None, AsymFileFormat::V1);
+        assert!(matches!(res, Err(EncryptError::IOWrite(_))), "[C10] a failing header write is reported as IOWrite");
+        unsafe { assert!(EC.0 == 0 && SRC_READS == 0, "[C10] nothing further happens after the failure"); }
+        core::mem::forget(res); core::mem::forget(sender);
+    }
+}
